@@ -53,12 +53,12 @@ def gen_cases(prop, n, sd):
             fee = rng.choice(["0", "0.001", "0.0025", "0.02", "0.005"])
             px = [("%d.%02d" % (rng.randint(0, 199), rng.randint(1, 99))) if rng.random() < 0.95 else "nan" for _ in range(nw)]
             if kind == "dw":
-                par = rng.choice(["0.05", "0.1", "0.3", "0", "0.025", "0.15", "0.0333", "0.004", "0.125"] + (["-0.01", "1.01"] if rng.random() < 0.2 else []))
+                par = rng.choice(["0.05", "0.1", "0.3", "0", "0.025", "0.15", "0.0333", "0.004", "0.125"] + (["-0.01", "1.01", "1.000001", "-0.000000001", "1.000000005"] if rng.random() < 0.25 else []))
                 w = [rng.choice([0, 1, 2, 3, 4, 5, 6, 10]) for _ in range(nw)]
                 if rng.random() < 0.1 and nw:
                     w[rng.randrange(nw)] = -rng.randint(1, 3)
             else:
-                par = rng.choice(["1", "1.5", "2", "0.3", "3", "1.337", "2.5049", "0.004", "0.75"] + (["0", "-0.5"] if rng.random() < 0.2 else []))
+                par = rng.choice(["1", "1.5", "2", "0.3", "3", "1.337", "2.5049", "0.004", "0.75"] + (["0", "-0.5", "-0.000000001"] if rng.random() < 0.2 else []))
                 w = [rng.choice([-6, -4, -3, -1, 0, 1, 2, 3, 5, 7]) for _ in range(nw)]
             wdiv = rng.choice([1, 10, 100])
             if rng.random() < 0.08:
